@@ -818,11 +818,13 @@ func (n *network) connect(name gen.Atom, route gen.NetworkRoute) (gen.Connection
 	}
 
 	if c, err := n.registerConnection(result.Peer, pconn); err != nil {
+		// somebody else has connected meanwhile: this link is not needed and
+		// the peer must not take it for the connection
+		pconn.Terminate(err)
+		conn.Close()
 		if err == gen.ErrTaken {
 			return c, nil
 		}
-		pconn.Terminate(err)
-		conn.Close()
 		return nil, err
 	}
 
